@@ -404,6 +404,97 @@ Proof.
   - constructor.
 Qed.
 
+(* ---------- fragment parsing: TreeBuilder::new_for_fragment ---------- *)
+(* reset_insertion_mode does not read the insertion mode *)
+Definition lift_mode (X : imode) {A} (r : res A) : res A :=
+  match r with Ok a s' => Ok a (set_mode X s') | Panic n => Panic n | OutOfFuel => OutOfFuel end.
+Lemma reset_loop_set_mode X s : forall l s0, reset_loop (set_mode X s) l (set_mode X s0) = lift_mode X (reset_loop s l s0).
+Proof.
+  induction l as [|node0 r IH]; intro s0; cbn [reset_loop]; [reflexivity|].
+  change (context_elem (set_mode X s)) with (context_elem s). change (ename_of (set_mode X s)) with (ename_of s).
+  change (template_modes (set_mode X s)) with (template_modes s). change (head_elem (set_mode X s)) with (head_elem s).
+  destruct (ename_of s _) as [ns name].
+  repeat match goal with
+  | |- (if ?c then _ else _) _ = lift_mode _ ((if ?c then _ else _) _) => destruct c
+  end; try reflexivity; try apply IH.
+  destruct (vlast (template_modes s)); reflexivity.
+Qed.
+
+Lemma reset_any_mode X s (Q : imode -> st -> Prop) :
+  wp reset_insertion_mode Q (set_mode X s) -> wp reset_insertion_mode (fun m s' => Q m (set_mode X s')) s.
+Proof.
+  unfold wp, reset_insertion_mode, bind, get. change (open_elems (set_mode X s)) with (open_elems s).
+  rewrite reset_loop_set_mode. destruct (reset_loop s (rev (open_elems s)) s); simpl; auto.
+Qed.
+
+Lemma TInv_fragment_setup s ctx form :
+  TInv s -> early_mode (mode s) = true -> known s ctx ->
+  (forall f, form = Some f -> known s f /\ ename_of s f = (ns_html, nm "form")) ->
+  TInv (set_template_modes (if ename_eqb (ename_of s ctx) (ns_html, nm "template") then [InTemplate] else [])
+          (set_form_elem form (set_context_elem (Some ctx) s))).
+Proof.
+  intros I E Kc Hf. pose proof I as [I1 I2 I3 I4 I5 I6 I7 I8 I9 I10 I11].
+  assert (Es : open_elems s = []) by (unfold root_ok in I3; rewrite E in I3; exact I3).
+  constructor; try assumption.
+  - destruct I2 as [A B]. split; [|exact B]. unfold handles_of in *.
+    cbn [open_elems active_formatting head_elem form_elem context_elem set_template_modes set_form_elem set_context_elem].
+    inversion A as [|x l A0 A1]; subst. constructor; [exact A0|].
+    apply Forall_app in A1. destruct A1 as [A1 A2]. apply Forall_app in A2. destruct A2 as [A2 A3].
+    apply Forall_app in A3. destruct A3 as [A3 _].
+    repeat (apply Forall_app; split); try assumption.
+    + destruct form as [f|]; [constructor; [exact (proj1 (Hf f eq_refl)) | constructor] | constructor].
+    + constructor; [exact Kc | constructor].
+  - unfold tm_ok, tcount.
+    cbn [open_elems context_elem template_modes set_template_modes set_form_elem set_context_elem]. rewrite Es. cbn [filter List.length].
+    unfold is_template, html_elem_named_b.
+    match goal with |- context [ename_eqb (ename_of ?s' ctx) _] => change (ename_of s' ctx) with (ename_of s ctx) end.
+    destruct (ename_eqb (ename_of s ctx) (ns_html, nm "template")); simpl; lia.
+  - destruct I10 as [A B]. split; [exact A|]. cbn [form_elem set_template_modes set_form_elem]. intros f Ef.
+    exact (proj2 (Hf f Ef)).
+  - unfold tmodes_ok. cbn [template_modes set_template_modes].
+    destruct (ename_eqb (ename_of s ctx) (ns_html, nm "template")); [constructor; [reflexivity | constructor] | constructor].
+Qed.
+
+Lemma init_fragment_ok o name attrs with_form :
+  wp (init_fragment name attrs with_form) (fun _ s' => TInv s') (init_state o).
+Proof.
+  pose proof (TInv_init o) as I0. set (s0 := init_state o) in *.
+  unfold init_fragment. rewrite wp_bind. unfold wp at 1. rewrite sink_create_element_eq.
+  set (ctx := next_handle s0). set (s1 := new_elem_state name attrs false s0).
+  assert (K1 : keeps s0 s1) by (apply new_elem_keeps; apply keeps_refl; exact I0).
+  assert (Kc1 : known s1 ctx) by apply new_elem_known.
+  rewrite wp_bind.
+  assert (Rest : forall s2 form, keeps s0 s2 -> known s2 ctx ->
+            (forall f, form = Some f -> known s2 f /\ ename_of s2 f = (ns_html, nm "form")) ->
+            wp (s <- get ;;
+                modify (fun s3 => set_template_modes (if ename_eqb (ename_of s ctx) (ns_html, nm "template") then [InTemplate] else [])
+                                    (set_form_elem form (set_context_elem (Some ctx) s3))) ;;
+                create_root [] ;; m <- reset_insertion_mode ;; set_mode_m m)
+               (fun _ s' => TInv s') s2).
+  { intros s2 form K2 Kc Hf. pose proof K2 as [I2 S2].
+    assert (E2 : early_mode (mode s2) = true) by (rewrite (st_mode _ _ S2); reflexivity).
+    rewrite wp_bind, wp_get, wp_bind, wp_modify.
+    pose proof (TInv_fragment_setup s2 ctx form I2 E2 Kc Hf) as I3. set (s3 := set_template_modes _ _) in *.
+    rewrite wp_bind.
+    apply (wp_create_root s3 [] InBody); [exact I3 | exact E2 | reflexivity | reflexivity | reflexivity |].
+    intros s5 I5. rewrite wp_bind.
+    eapply wp_mono.
+    { apply (reset_any_mode InBody s5).
+      eapply (wp_reset_insertion_mode (set_mode InBody s5) (set_mode InBody s5)); [apply keeps_refl; exact I5 | reflexivity |].
+      intros m s6 K6 _ Em Sm Hm. pose proof K6 as [I6 S6].
+      apply (keeps_set_mode (set_mode InBody s5) s6 m); [exact K6 | eapply keeps_late; [exact K6 | reflexivity]
+                                                         | rewrite (st_mode _ _ S6); reflexivity | exact Em | exact Sm |].
+      intro X. rewrite (st_head _ _ S6). apply Hm. exact X. }
+    intros m s6 I6. unfold set_mode_m. rewrite wp_modify. exact I6. }
+  destruct with_form.
+  - rewrite wp_bind. unfold wp at 1. rewrite sink_create_element_eq.
+    set (f := next_handle s1). set (s2 := new_elem_state _ _ _ s1).
+    rewrite wp_ret. apply (Rest s2 (Some f)); [apply new_elem_keeps; exact K1 | | ].
+    + unfold s2. unfold known. rewrite new_elem_next. unfold known in Kc1. lia.
+    + intros f' E. injection E as <-. split; [apply new_elem_known | apply new_elem_name].
+  - rewrite wp_ret. apply (Rest s1 None); [exact K1 | exact Kc1 | intros f E; discriminate E].
+Qed.
+
 (* the tokenizer protocol along a run: token_ok / scalar_token for every token, in the state in which it arrives *)
 Fixpoint protocol (s : st) (toks : list (token * N)) : Prop :=
   match toks with
@@ -446,6 +537,25 @@ Corollary tree_no_panic_document_partial o toks :
   | RunFuel => True
   end.
 Proof. apply tree_no_panic_partial. apply TInv_init. Qed.
+
+(* fragment parsing: the state built by TreeBuilder::new_for_fragment satisfies the invariant, whatever the
+   context element, and the run theorem applies from there *)
+Corollary tree_no_panic_fragment_partial o name attrs with_form toks :
+  match init_fragment name attrs with_form (init_state o) with
+  | Ok _ s0 =>
+    protocol s0 toks ->
+    match run_tokens s0 toks [] with
+    | RunOk s' _ => TInv s'
+    | RunPanic n => n = shape_site
+    | RunFuel => True
+    end
+  | _ => False
+  end.
+Proof.
+  pose proof (init_fragment_ok o name attrs with_form) as W. unfold wp in W.
+  destruct (init_fragment name attrs with_form (init_state o)) as [u s0 | n |]; [|exact W | exact W].
+  intro P. apply tree_no_panic_partial; assumption.
+Qed.
 
 (* the remaining entry points of the TokenSink *)
 Lemma tb_end_no_panic s : wp tb_end (fun _ _ => True) s.
@@ -497,6 +607,60 @@ Qed.
 
 Theorem traced_handles_known s : TInv s -> Forall (known s) (trace s).
 Proof. intro I. exact (proj1 (inv_known _ I)). Qed.
+
+(* ---------- C06 skeleton: what the invariant says about the stack and the pointers ---------- *)
+Theorem stack_bottom_is_html s : TInv s -> early_mode (mode s) = false ->
+  exists r rest, open_elems s = r :: rest /\ ename_of s r = html_html.
+Proof. intros I L. exact (TInv_stack_nonempty s I L). Qed.
+
+Theorem stack_empty_before_html s : TInv s -> early_mode (mode s) = true -> open_elems s = [].
+Proof. intros I E. pose proof (inv_root _ I) as R. unfold root_ok in R. rewrite E in R. exact R. Qed.
+
+Theorem pointers_named s : TInv s ->
+  (forall h, head_elem s = Some h -> ename_of s h = (ns_html, nm "head")) /\
+  (forall f, form_elem s = Some f -> ename_of s f = (ns_html, nm "form")).
+Proof. intro I. exact (inv_ptr _ I). Qed.
+
+Theorem formatting_entries_named s h t : TInv s -> In (FElem h t) (active_formatting s) ->
+  ename_of s h = (ns_html, tg_name t) /\ is_formatting (tg_name t) = true.
+Proof. intros I H. exact (inv_af _ I h t H). Qed.
+
+(* ---------- refinements of helpers (e) ---------- *)
+(* "has an element in a specific scope" (WHATWG 13.2.4.2): walking the stack from the top, an element
+   satisfying [pred] is met before any element of the scope list *)
+Theorem in_scope_l_spec s scope pred l :
+  in_scope_l s scope pred l = true <->
+  exists pre x post, l = pre ++ x :: post /\ pred x = true /\
+    Forall (fun y => pred y = false /\ scope (ename_of s y) = false) pre.
+Proof.
+  induction l as [|n r IH]; simpl.
+  - split; [discriminate|]. intros (pre & x & post & E & _). destruct pre; discriminate E.
+  - destruct (pred n) eqn:Pn.
+    + split; [|reflexivity]. intros _. exists [], n, r. repeat split; [exact Pn | constructor].
+    + destruct (scope (ename_of s n)) eqn:Sn.
+      * split; [discriminate|]. intros (pre & x & post & E & Px & F).
+        destruct pre as [|a pre]; simpl in E; injection E as -> E'.
+        -- congruence.
+        -- inversion F as [|y l' [_ Fy] _]; subst. congruence.
+      * rewrite IH. split.
+        -- intros (pre & x & post & -> & Px & F). exists (n :: pre), x, post. repeat split; [exact Px | constructor; [split; assumption | exact F]].
+        -- intros (pre & x & post & E & Px & F). destruct pre as [|a pre]; simpl in E; injection E as -> E'.
+           ++ congruence.
+           ++ inversion F; subst. exists pre, x, post. repeat split; assumption.
+Qed.
+
+(* generate_implied_end_tags pops exactly the maximal run of elements of the set on top of the stack *)
+Theorem implied_split_spec s set l p q : implied_split s set l = (p, q) ->
+  l = p ++ q /\ Forall (fun h => set (ename_of s h) = true) p /\
+  match q with [] => True | h :: _ => set (ename_of s h) = false end.
+Proof.
+  revert p q. induction l as [|e t IH]; intros p q E; simpl in E.
+  - injection E as <- <-. repeat split. constructor.
+  - destruct (set (ename_of s e)) eqn:Se.
+    + destruct (implied_split s set t) as [p' q'] eqn:E'. injection E as <- <-.
+      destruct (IH _ _ eq_refl) as (A & B & C). repeat split; [simpl; rewrite A; reflexivity | constructor; assumption | exact C].
+    + injection E as <- <-. repeat split; [constructor | exact Se].
+Qed.
 
 (* ---------- non-vacuity ---------- *)
 Definition ex_opts : topts :=
